@@ -22,7 +22,17 @@ CONTEXTS = {
     "caption": "{|\n|+ AAq %s ZZq\n|-\n| x\n|}\n",
     "uc-arg": "{{uc:AAQ %s ZZQ}}",
     "template-sibling": "{{N}} AAq %s ZZq {{S}}",
+    # the help-page idiom: the region quoted in <nowiki> next to the real one (equal source text, different kinds)
+    "quoted-twin-before": "<nowiki>%(t)s</nowiki> gives AAq %(t)s ZZq",
+    "quoted-twin-after": "AAq %(t)s ZZq is written <nowiki>%(t)s</nowiki>",
 }
+TWIN_CONTEXTS = ("quoted-twin-before", "quoted-twin-after")
+
+
+def embed(cname, tagged):
+    tpl = CONTEXTS[cname]
+    return tpl % {"t": tagged} if "%(t)s" in tpl else tpl % tagged
+
 MARKERS = {"uc-arg": ("AAQ ", " ZZQ")}
 DB_CONTEXTS = ("template-arg", "ref", "uc-arg", "template-sibling")
 # bodies that consist of one delimiter only: a parser that looks at token text without its type takes them for markup
@@ -34,7 +44,7 @@ META = dict(
         "Hypothesis draws (tag of {nowiki, pre, math, source, syntaxhighlight, timeline} in any letter case with optional blanks before "
         "'>', attributes, body = lexeme soup over the full alphabet (wiki markup, template calls, parameters, HTML and include-control "
         "tags, comments, well- and ill-formed entities) minus the tag's own closing tag and U+007F (for pre also minus <nowiki>), one of "
-        "13 embedding contexts (incl. table caption, parser-function argument, next to templates that hold opaque regions themselves), with a wiki database (expander path) or without). Oracle: the text carried by the tag's node equals the "
+        "15 embedding contexts (incl. table caption, the region quoted in <nowiki> next to the real one, parser-function argument, next to templates that hold opaque regions themselves), with a wiki database (expander path) or without). Oracle: the text carried by the tag's node equals the "
         "body - for nowiki/pre modulo a strict reference entity grammar in which every well-formed character reference matches itself or "
         "its character; the multiset of non-Text node classes equals that of the same context with a plain-word body; the uniq "
         "protect/restore round trip is the identity. Non-trivial: the body holds >= 1 markup lexeme that would build a node if interpreted."
@@ -85,6 +95,8 @@ def valid_body(tag, body, context=None):
         return False
     if context == "caption" and "\n" in body:
         return False  # a caption is a one-line construct
+    if context in TWIN_CONTEXTS and (tag == "nowiki" or re.search(r"</?nowiki", body, re.I) or "<!--" in body):
+        return False  # the quoting <nowiki> must stay one region (comments are dropped inside nowiki, kept as source elsewhere)
     if context == "ref" and re.search(r"</ref", body, re.I):
         return False  # would close the surrounding <ref> of the context (as it does in MediaWiki), not an opacity question
     if re.search(r"</%s\s*>" % tag, body, re.I):
@@ -149,8 +161,8 @@ def check(ctx, case):
     left, right = MARKERS.get(cname, ("AAq ", " ZZq"))
     open_tag = "<%s%s%s>" % (case["spelling"], case["attrs"], case["blank"])
     close_tag = "</%s%s>" % (case["spelling"], case["blank"])
-    src = CONTEXTS[cname] % (open_tag + body + close_tag)
-    ref_src = CONTEXTS[cname] % (open_tag + "plainword" + close_tag)
+    src = embed(cname, open_tag + body + close_tag)
+    ref_src = embed(cname, open_tag + "plainword" + close_tag)
     small = dict(case, src=src)
 
     def F(bucket, detail):
@@ -236,6 +248,8 @@ def replay(ctx, case):
 def cases(draw):
     tag = draw(st.sampled_from(TAGS))
     context = draw(st.sampled_from(sorted(CONTEXTS)))
+    if tag == "nowiki" and context in TWIN_CONTEXTS:
+        context = "top"
     for _ in range(4):
         if draw(st.integers(0, 5)) == 0:
             body = draw(st.sampled_from(DELIMITER_BODIES))
